@@ -294,7 +294,7 @@ structure Dev where
   faults : List (Nat × Bool × Nat) := []
   hidPad : Nat := 0
   pingDummy : Nat := 0
-  version : Nat := 0x4B030000 + 0x50  -- protocol version word of the ping response ('P' 1.3.0 style value)
+  version : Nat := 0x50010300  -- protocol version word of the ping response (bugfix 0, minor 3, major 1, 'P')
   options : Nat := 0
   deriving Repr
 
@@ -469,6 +469,8 @@ structure Host where
   status : Nat := 0
   mps : Option Nat := none
   eda : Bool := false
+  /-- `device.is_opened` -/
+  opened : Bool := true
   rxB : Bytes := []
   rxR : List Bytes := []
   txRev : List Bytes := []
@@ -655,7 +657,12 @@ def writeData (allowAbort : Bool) (data : Bytes) : H Unit := do
 def noResponse (tag : Nat) : Resp := { kind := .noResponse, tag, pc := 0, status := Spec.stNoResponse }
 
 /-- `_process_cmd` -/
+def requireOpen : H Unit := do
+  let h ← get
+  if h.opened then pure () else fail .conn     -- "Device not opened"
+
 def processCmd (p : CmdPkt) : H Resp := do
+  requireOpen
   let r ← catch_ (do writeCommand p; readAny)
     (fun e => if e = .timeout then do setStatus Spec.stNoResponse; pure (.resp (noResponse p.tag)) else fail e)
   match r with
@@ -685,6 +692,7 @@ def readDataLoop (cmdTag : Nat) : Nat → Bytes → H Bytes
 
 /-- `_read_data(cmd_tag, length)` (with the status correction of fix C10-2) -/
 def readData (cmdTag length : Nat) : H Bytes := do
+  requireOpen
   let h ← get
   let data ← readDataLoop cmdTag (length + h.fuelHint + h.rxB.length + h.rxR.length + 8) []
   let h ← get
@@ -709,6 +717,7 @@ def sendDataHandler (e : HErr) : H RxItem :=
 
 /-- `_send_data(cmd_tag, chunks)` for a command that expects a final response -/
 def sendData (chunks : List Bytes) : H Bool := do
+  requireOpen
   let h ← get
   let total := (chunks.map List.length).sum
   let (sent, err) ← sendChunks h.eda chunks 0
@@ -847,9 +856,11 @@ def ping : H Unit := do
 /-- `MbootSerialProtocol.open()`: up to three ping attempts -/
 def openSerial : Nat → H Unit
   | 0 => fail .conn
-  | k + 1 => catch_ ping (fun e =>
-      if e = .timeout ∨ e = .conn then openSerial k
-      else fail .conn)
+  | k + 1 => do
+    modify (fun h => { h with opened := true })
+    catch_ ping (fun e => do
+      modify (fun h => { h with opened := false })
+      if e = .timeout ∨ e = .conn then openSerial k else fail .conn)
 
 inductive Op where
   | open_
@@ -873,7 +884,7 @@ def runOp : Op → H Val
     let h ← get
     match h.cfg.tr with
     | .serial => do openSerial Spec.openAttempts; pure .unit
-    | .hid => pure .unit
+    | .hid => do modify (fun h => { h with opened := true }); pure .unit
   | .getProperty t i => do
     let v ← getProperty t i
     match v with
